@@ -35,7 +35,7 @@ reg("C15",
     name="C15_map_capture", src=_SRC,
     anchor_files=["src/hgraph/runtime/map_node.cpp", "src/hgraph/runtime/graph.cpp", "src/hgraph/runtime/node_error.cpp", "src/hgraph/types/graph_wiring.cpp"],
     quick=dict(defs=dict(MODE=2, NCYC=3, DMAX=2, TSCHED=0), symx=dict(shards=16, **{"max-wall": 900})),
-    thorough=dict(defs=dict(MODE=2, NCYC=4, DMAX=1, TSCHED=0), symx=dict(shards=16, **{"max-wall": 3000, "shard-depth": 8})),
+    thorough=dict(defs=dict(MODE=2, NCYC=4, DMAX=2, TSCHED=0), symx=dict(shards=16, **{"max-wall": 3000, "shard-depth": 8})),
     reach=["end", "no_throw", "key_child_throws", "one_key_throws_other_key_runs", "both_keys_throw", "key_child_normal_evaluation_after_throw"],
     bounds="keyed map with per-key error capture (real wire_map + exception_time_series on the TSD output -> map_node write_map_error): keysrc (keys 0 and 1, "
            "both added in cycle 0, afterwards an enumerated non-empty subset of the keys is updated per cycle) -> map_( (key, x): pre -> TK ) -> per-key "
